@@ -67,7 +67,7 @@ fn wide_family() -> ListSpace {
 }
 
 fn c14_spaces(thorough: bool) -> Vec<Box<dyn Space>> {
-    vec![Box::new(ms_b(if thorough { 5 } else { 4 }, true)), Box::new(ms_c()), Box::new(ms_d(thorough)), Box::new(wide_family()), Box::new(crate::families::scale_family(false)), Box::new(crate::families::unicode_family())]
+    vec![Box::new(ms_b(if thorough { 5 } else { 4 }, true)), Box::new(ms_c()), Box::new(ms_d(thorough)), Box::new(wide_family()), Box::new(crate::families::scale_family(false)), Box::new(crate::families::unicode_family()), Box::new(crate::families::huge_family(if thorough { 400_000 } else { 150_000 }))]
 }
 
 /// the deterministic enumeration shared by all processes
@@ -405,6 +405,74 @@ fn uuid_of(bytes: &[u8]) -> [u8; 16] {
     *cur::ProguardMapping::new(bytes).uuid().as_bytes()
 }
 
+/// operation sequences on one value: uuid() of a parent, then of every section / clone of it (a cached identifier
+/// must not travel with the value); returns descriptions of wrong answers
+fn c18_sequences() -> Vec<String> {
+    let mut bad = Vec::new();
+    let base: Vec<u8> = b"p.A -> a:\n    1:2:void p():3:4 -> m\nq.B -> b:\n".to_vec();
+    for first_parent in [true, false] {
+        let parent = cur::ProguardMapping::new(&base);
+        if first_parent {
+            let _ = parent.uuid();
+        }
+        for i in 0..=base.len() {
+            for j in [i, (i + 1).min(base.len()), (i + 7).min(base.len()), base.len()] {
+                if j < i {
+                    continue;
+                }
+                let sec = parent.section(i..j);
+                let exp = sha1::proguard_uuid(&base[i..j]);
+                if *sec.uuid().as_bytes() != exp {
+                    bad.push(format!("section({}..{}).uuid() after parent.uuid()={} is wrong", i, j, first_parent));
+                }
+                // a second call on the same value, a clone, and a nested section
+                if *sec.uuid().as_bytes() != exp || *sec.clone().uuid().as_bytes() != exp {
+                    bad.push(format!("second uuid() / clone of section({}..{}) is wrong", i, j));
+                }
+                if j > i {
+                    let inner = sec.section(0..(j - i) / 2);
+                    if *inner.uuid().as_bytes() != sha1::proguard_uuid(&base[i..i + (j - i) / 2]) {
+                        bad.push(format!("nested section of section({}..{}) is wrong", i, j));
+                    }
+                }
+            }
+        }
+        if *parent.uuid().as_bytes() != sha1::proguard_uuid(&base) || *parent.clone().uuid().as_bytes() != sha1::proguard_uuid(&base) {
+            bad.push("parent uuid after its sections is wrong".into());
+        }
+    }
+    bad.truncate(5);
+    bad
+}
+
+/// large inputs (>= 64 KiB) that agree in length and in every cheap checksum a memo might use as its key
+/// (same multiset of bytes / words: blocks swapped), hashed back to back
+fn c18_permuted_large() -> Vec<String> {
+    let mut bad = Vec::new();
+    for n in [65536usize, 65544, 131072, (1 << 20) + 8] {
+        let base: Vec<u8> = (0..n).map(|i| (i as u32).wrapping_mul(2654435761).to_le_bytes()[1]).collect();
+        let mut variants: Vec<Vec<u8>> = vec![base.clone()];
+        for (a, b, w) in [(0usize, 8usize, 8usize), (16, n - 8, 8), (4, 12, 4), (1, 2, 1), (n / 2, n / 2 + 64, 64), (0, n - 4096, 4096)] {
+            let mut v = base.clone();
+            for k in 0..w {
+                v.swap(a + k, b + k);
+            }
+            if v != base {
+                variants.push(v);
+            }
+        }
+        // base again at the end: an entry cached for a variant must not answer for the base
+        variants.push(base.clone());
+        for (k, v) in variants.iter().enumerate() {
+            if uuid_of(v) != sha1::proguard_uuid(v) {
+                bad.push(format!("large input of {} bytes, variant #{} (blocks swapped), hashed right after the previous variant: wrong identifier", n, k));
+            }
+        }
+    }
+    bad.truncate(5);
+    bad
+}
+
 /// worker: `pgmc c18-worker <tier> <outfile>`: first action = two racing threads on the lazily built
 /// namespace global, then all inputs; writes one line per mismatch and a final digest
 pub fn c18_worker(args: &[String]) -> i32 {
@@ -439,6 +507,9 @@ pub fn c18_worker(args: &[String]) -> i32 {
     }
     for i in c18_same_address(&inputs) {
         report.push_str(&format!("MISMATCH reuse {}\n", i));
+    }
+    for d in c18_sequences().into_iter().chain(c18_permuted_large()) {
+        report.push_str(&format!("MISMATCH seq {}\n", d));
     }
     report.push_str(&format!("DIGEST {:016x} {}\n", h64(&all), inputs.len()));
     std::fs::write(&out, report).expect("write report");
@@ -487,6 +558,14 @@ pub fn run_c18(tier: Tier) -> i32 {
     }
     acc.transitions += inputs.len() as u64;
     acc.observations += inputs.len() as u64;
+    for d in c18_sequences() {
+        acc.violation("uuid:travels-with-the-value", 1, || (d.clone(), json!({"kind":"uuid-seq"})));
+    }
+    for d in c18_permuted_large() {
+        acc.violation("uuid:depends-on-address-or-history", 1 << 16, || (d.clone(), json!({"kind":"uuid-seq"})));
+    }
+    acc.states += 2;
+    acc.observations += 600;
     // equal files get equal identifiers; LF vs CRLF variants get different ones (nothing is normalised)
     acc.sample(3, || json!({"input": "p.A -> a:\\n", "uuid": hex(&uuid_of(b"p.A -> a:\n")), "independent_sha1_v5": hex(&sha1::proguard_uuid(b"p.A -> a:\n"))}));
     acc.sample(3, || json!({"input": "(empty)", "uuid": hex(&uuid_of(b""))}));
@@ -504,6 +583,9 @@ pub fn run_c18(tier: Tier) -> i32 {
         for l in rep.lines() {
             if l.starts_with("MISMATCH race") {
                 acc.violation("uuid:race-on-first-use", 1, || (format!("process {}: two threads racing on the first uuid() call: {}", s, l), json!({"kind":"uuid-race"})));
+            } else if let Some(d) = l.strip_prefix("MISMATCH seq ") {
+                let sig = if d.starts_with("large input") { "uuid:depends-on-address-or-history" } else { "uuid:travels-with-the-value" };
+                acc.violation(sig, 1, || (format!("process {}: {}", s, d), json!({"kind":"uuid-seq"})));
             } else if let Some(i) = l.strip_prefix("MISMATCH reuse ") {
                 let i: usize = i.parse().unwrap_or(0);
                 acc.violation("uuid:depends-on-address-or-history", inputs[i].len(), || (format!("process {}: input #{} in a reused buffer got a wrong identifier", s, i), json!({"kind":"uuid-reuse","index":i})));
@@ -523,7 +605,7 @@ pub fn run_c18(tier: Tier) -> i32 {
         prop: "C18",
         tier,
         level: "exploration",
-        rule: format!("{} inputs: all byte strings of length <= 4 over {{a, LF, CR, 00, ff, space, #, EF, BB, BF}}; a small mapping, 'x', the empty file and the small corpus files with each of 12 invisible prefixes / suffixes (byte order marks, blanks, line terminators, NUL); every input once more through one reused buffer (same address and length, different content, consecutively); every length 0..=200 of a fixed pattern and lengths around every multiple of 64 up to 4 KiB (all SHA-1 padding boundaries); 1 MiB; the corpus files as they are, with CRLF, and without final newline. Each compared with an independent SHA-1 / RFC 4122 v5 computation (validated against the FIPS 180 vectors at start-up), in this process and in {} separately started processes (different hash seeds), each of which first lets two threads race on the lazily built namespace. distinct = distinct identifiers", n, nprocs),
+        rule: format!("{} inputs: all byte strings of length <= 4 over {{a, LF, CR, 00, ff, space, #, EF, BB, BF}}; a small mapping, 'x', the empty file and the small corpus files with each of 12 invisible prefixes / suffixes (byte order marks, blanks, line terminators, NUL); every input once more through one reused buffer (same address and length, different content, consecutively); operation sequences (uuid of a parent, then of every section(i..j), clone and nested section of it, in both orders); inputs of 64 KiB..1 MiB that differ only by swapped blocks, hashed back to back; every length 0..=200 of a fixed pattern and lengths around every multiple of 64 up to 4 KiB (all SHA-1 padding boundaries); 1 MiB; the corpus files as they are, with CRLF, and without final newline. Each compared with an independent SHA-1 / RFC 4122 v5 computation (validated against the FIPS 180 vectors at start-up), in this process and in {} separately started processes (different hash seeds), each of which first lets two threads race on the lazily built namespace. distinct = distinct identifiers", n, nprocs),
         bounds: json!({"inputs": n, "processes": nprocs}),
         assumptions: vec!["the function delegates to uuid / sha1_smol; this is the weakest use of the technique in the set (small exhaustive input space, no state)".into()],
         trusted_base: vec!["rustc/std".into(), "independent SHA-1 / UUIDv5 in pgmc/src/sha1.rs".into()],
@@ -547,6 +629,16 @@ pub fn recheck_c18(case: &Value) -> Vec<String> {
                     c18_check(&inp, &mut acc);
                 }
             }
+        }
+        "uuid-seq" => {
+            let mut v = Vec::new();
+            if !c18_sequences().is_empty() {
+                v.push("uuid:travels-with-the-value".to_string());
+            }
+            if !c18_permuted_large().is_empty() {
+                v.push("uuid:depends-on-address-or-history".to_string());
+            }
+            return v;
         }
         "uuid-reuse" => {
             if !c18_same_address(&c18_inputs()).is_empty() {
